@@ -42,6 +42,8 @@ func (engine) Decode(raw json.RawMessage) (any, error) {
 // handlers only on lambda nodes (a handler on a pass-through / sub graph is a typing
 // question, property C07), mapping targets among the two fields of WS.
 func normalize(c *Case) {
+	ws := c.FE == "nested" && usesWS(c)
+	childKind := map[string]string{} // nested: the kind an inner builder was created with
 	staticField := map[string]string{} // one static field per node: the order in which Go meets several paths of one node is not observable
 	for i := range c.Calls {
 		k := &c.Calls[i]
@@ -57,12 +59,45 @@ func normalize(c *Case) {
 			}
 		}
 		if c.FE == "nested" {
+			if k.Op == "sub" {
+				switch {
+				case ws && (k.Kind == "subchain" || k.Kind == "subchainbad"):
+					k.Kind = "subok" // a Chain of this harness works on M, the Workflow universe is WS
+				case k.Kind == "subbad", k.Kind == "subchain", k.Kind == "subchainbad", k.Kind == "subwf", k.Kind == "subwfbad":
+				default:
+					k.Kind = "subok"
+				}
+				if _, seen := childKind[k.ID]; !seen {
+					childKind[k.ID] = k.Kind
+				}
+			}
 			if k.Op == "inner" && k.Sub != nil {
-				sub := Case{FE: "graph", Calls: []Call{*k.Sub}}
+				fe := "graph"
+				switch childKind[k.ID] {
+				case "subchain", "subchainbad":
+					fe = "chain"
+				case "subwf", "subwfbad":
+					fe = "workflow"
+				}
+				if !map[string]map[string]bool{
+					"graph":    {"addnode": true, "addedge": true, "addbranch": true, "compile": true},
+					"chain":    {"append": true, "parallel": true, "branch": true, "compile": true},
+					"workflow": {"addnode": true, "addinput": true, "addbranch": true, "addend": true, "setstatic": true, "compile": true},
+				}[fe][k.Sub.Op] {
+					k.Sub = nil // not a call of that kind of builder (a shrunk case that lost the sub call): a no-op on both sides
+					continue
+				}
+				sub := Case{FE: fe, Calls: []Call{*k.Sub}}
 				normalize(&sub)
 				s0 := sub.Calls[0]
-				if s0.Op == "addnode" && s0.Kind != "pass" {
-					s0.Kind = "lambda" // no sub graphs inside a sub graph
+				// no builders inside an inner builder, no state handlers (an inner builder has no state)
+				if s0.Kind != "" && s0.Kind != "pass" {
+					s0.Kind = "lambda"
+				}
+				for j := range s0.Items {
+					if s0.Items[j].Kind != "pass" {
+						s0.Items[j].Kind = "lambda"
+					}
 				}
 				s0.NeedState, s0.NodeKeyOpt, s0.ID, s0.Sub = false, false, "", nil
 				k.Sub = &s0
@@ -70,13 +105,14 @@ func normalize(c *Case) {
 			if k.Op == "addnode" && k.Kind != "pass" {
 				k.Kind = "lambda" // the sub graphs of a nested case are named values (op sub)
 			}
-			if k.Op == "sub" && k.Kind != "subbad" {
-				k.Kind = "subok"
-			}
 		}
 		if k.Kind != "lambda" {
 			k.NeedState = false
 		}
+		if !k.NeedState {
+			k.HK = 0
+		}
+		k.HK &= 3
 		if k.Ends != nil {
 			sort.Strings(k.Ends)
 			out := k.Ends[:0]
@@ -143,16 +179,7 @@ func coqItems(items []Item) string {
 
 func coqCall(fe string, c *Call, ord, sord []string) string {
 	if fe == "nested" {
-		switch c.Op {
-		case "sub":
-			return lib.CoqApp("NSub", lib.CoqStr(c.Key), lib.CoqStr(c.ID), lib.CoqBool(c.Kind != "subbad"))
-		case "inner":
-			if c.Sub == nil {
-				return lib.CoqApp("NInner", lib.CoqStr(""), "(GCompile opt_default)") // no such value: a no-op on both sides
-			}
-			return lib.CoqApp("NInner", lib.CoqStr(c.ID), "("+coqCall("graph", c.Sub, nil, nil)+")")
-		}
-		return lib.CoqApp("NOuter", "("+coqCall("graph", c, nil, nil)+")")
+		panic("harness: nested calls are printed by coqNested")
 	}
 	switch fe + "/" + c.Op {
 	case "graph/addnode":
@@ -198,6 +225,29 @@ func coqCall(fe string, c *Call, ord, sord []string) string {
 	panic("harness: cannot print " + fe + "/" + c.Op)
 }
 
+// coqNested prints one call of a nested case; kinds: the kind every inner builder was created with
+func coqNested(c *Call, kinds map[string]string) string {
+	chain := func(k string) bool { return k == "subchain" || k == "subchainbad" }
+	switch c.Op {
+	case "sub":
+		kd := lib.CoqApp("SKGraph", lib.CoqBool(c.Kind != "subbad"))
+		if chain(c.Kind) {
+			kd = lib.CoqApp("SKChain", lib.CoqBool(c.Kind == "subchain"))
+		}
+		return lib.CoqApp("NSub", lib.CoqStr(c.Key), lib.CoqStr(c.ID), kd)
+	case "inner":
+		k, known := kinds[c.ID]
+		if c.Sub == nil || !known {
+			return lib.CoqApp("NInner", lib.CoqStr(""), "(KG (GCompile opt_default))") // no such value: a no-op on both sides
+		}
+		if chain(k) {
+			return lib.CoqApp("NInner", lib.CoqStr(c.ID), lib.CoqApp("KC", coqCall("chain", c.Sub, nil, nil)))
+		}
+		return lib.CoqApp("NInner", lib.CoqStr(c.ID), lib.CoqApp("KG", coqCall("graph", c.Sub, nil, nil)))
+	}
+	return lib.CoqApp("NOuter", coqCall("graph", c, nil, nil))
+}
+
 func coqObs(o CallObs) string {
 	switch o.K {
 	case "ok":
@@ -210,11 +260,27 @@ func coqObs(o CallObs) string {
 
 func coqCase(c *Case, obs []CallObs, intact bool) string {
 	pairs := make([]string, len(c.Calls))
+	kinds := map[string]string{}
 	for i := range c.Calls {
-		pairs[i] = lib.CoqPair(coqCall(c.FE, &c.Calls[i], obs[i].Ord, obs[i].SOrd), lib.CoqPair(coqObs(obs[i]), lib.CoqPair(lib.CoqNList(obs[i].Gone), lib.CoqNList(obs[i].New))))
+		call := ""
+		if c.FE == "nested" {
+			k := &c.Calls[i]
+			if _, seen := kinds[k.ID]; k.Op == "sub" && !seen {
+				kinds[k.ID] = k.Kind
+			}
+			call = coqNested(k, kinds)
+		} else {
+			call = coqCall(c.FE, &c.Calls[i], obs[i].Ord, obs[i].SOrd)
+		}
+		pairs[i] = lib.CoqPair(call, lib.CoqPair(coqObs(obs[i]), lib.CoqPair(lib.CoqNList(obs[i].Gone), lib.CoqNList(obs[i].New))))
 	}
 	ctor := map[string]string{"graph": "CaseG", "chain": "CaseC", "workflow": "CaseW", "nested": "CaseN"}[c.FE]
-	return lib.CoqApp(ctor, lib.CoqBool(c.State), lib.CoqList(pairs), lib.CoqBool(intact))
+	term := lib.CoqApp(ctor, lib.CoqBool(c.State), lib.CoqList(pairs), lib.CoqBool(intact))
+	if !haveState || !haveRunner {
+		// built without a white-box group (snap_off.go / wb_c09_off.go): what it would have read is left out of the comparison
+		term = lib.CoqApp("Degraded", lib.CoqBool(haveState), lib.CoqBool(haveRunner), term)
+	}
+	return term
 }
 
 // ---------------------------------------------------------------- run + direct oracle
@@ -229,7 +295,9 @@ func (engine) Run(ci any) lib.Result {
 	values := newPool()
 	first := execute(c, true, values)
 	res.Obs = Obs{Calls: first.obs, Intact: first.intact}
-	res.CoqTerm = coqCase(c, first.obs, first.intact)
+	if modelled(c) {
+		res.CoqTerm = coqCase(c, first.obs, first.intact)
+	} // else: judged by the Go-side oracles alone
 
 	// tags / non-triviality
 	nCompile, nErr, okCompileAt, firstCompile := 0, 0, -1, "none"
@@ -259,6 +327,12 @@ func (engine) Run(ci any) lib.Result {
 		"first-compile:" + firstCompile, fmt.Sprintf("post-compile-calls:%d", min(post, 4))}
 	for _, k := range c.Inj {
 		res.Tags = append(res.Tags, "inj:"+k)
+	}
+	if !haveState || !haveRunner {
+		res.Tags = append(res.Tags, "whitebox:unavailable")
+	}
+	if res.CoqTerm == "" {
+		res.Tags = append(res.Tags, "oracle-only")
 	}
 	if nCompile > 0 && okCompileAt >= 0 {
 		res.Tags = append(res.Tags, fmt.Sprintf("runnables-compared-in-structure:%d", min(first.nStruct, 3)))
@@ -373,6 +447,9 @@ func (engine) Run(ci any) lib.Result {
 	}
 	// (5) determinism: same outcome on every attempt
 	classVaries := false
+	// a Workflow (also one that is an inner builder of a nested case) visits its nodes in map order at Compile: which
+	// deferred error is met first, and what a failed attempt leaves behind, legitimately differ between attempts
+	wfOrder := c.FE == "workflow" || (c.FE == "nested" && usesWS(c))
 	for r := 1; r < reps; r++ {
 		// attempts 1 and 2 start from fresh builder values; attempts 3 and 4 build the same construction
 		// again from the VALUES of attempt 0 (its lambdas, branches, Parallel / ChainBranch objects, sub
@@ -400,13 +477,13 @@ func (engine) Run(ci any) lib.Result {
 		}
 		for i := range first.obs {
 			a, b := first.obs[i], again.obs[i]
-			if c.FE != "workflow" && strings.Join(a.State, ";") != strings.Join(b.State, ";") {
+			if !wfOrder && strings.Join(a.State, ";") != strings.Join(b.State, ";") {
 				fail("nondeterministic", fmt.Sprintf("attempt %d: the builder state after call %d differs from attempt 0", r, i))
 			}
 			if a.K != b.K {
 				fail("nondeterministic", fmt.Sprintf("attempt %d: call %d gave %s, attempt 0 gave %s", r, i, b.K, a.K))
 			} else if a.Cls != b.Cls {
-				if c.FE == "workflow" {
+				if wfOrder {
 					classVaries = true // which deferred error is met first depends on Go's map order
 				} else {
 					fail("nondeterministic", fmt.Sprintf("attempt %d: call %d gave %s, attempt 0 gave %s", r, i, b.Cls, a.Cls))
@@ -452,6 +529,29 @@ func (engine) Shrink(ci any, stillFails func(any) bool) any {
 		}
 	}
 	return &cur
+}
+
+func flag(b bool, t, f string) string {
+	if b {
+		return t
+	}
+	return f
+}
+
+// modelled: the case is replayed on the model.  Not: a Workflow case when the builder states cannot be read (the order
+// its Compiles took is read off them), a nested case with Workflow children (Model/BuilderNested.v has Graph and Chain children)
+func modelled(c *Case) bool {
+	if c.FE == "workflow" && !haveState {
+		return false
+	}
+	if c.FE == "nested" {
+		for _, k := range c.Calls {
+			if k.Op == "sub" && (k.Kind == "subwf" || k.Kind == "subwfbad") {
+				return false
+			}
+		}
+	}
+	return true
 }
 
 func js(x any) string { b, _ := json.Marshal(x); return string(b) }
